@@ -43,6 +43,23 @@ func (e *Eng) drawAud(label string) []string {
 	return nil
 }
 
+// sessFor is the integrator's session for a new grant. Now and then its custom claims are named like the fields the
+// server fills in itself (in the introspection extras and in the claims of a JWT access token): they must never
+// override them — a custom "exp" in particular neither shortens nor extends what the server honours.
+func (e *Eng) sessFor(subject string) fosite.Session {
+	sess := e.w.Sess(subject)
+	if hs, ok := sess.(*h.Sess); ok && rapid.IntRange(0, 3).Draw(e.t, "collidingExtraClaims") == 0 {
+		var exp interface{} = 1
+		if rapid.Bool().Draw(e.t, "customExpInTheFuture") {
+			exp = h.Epoch.Add(20 * 365 * 24 * time.Hour).Unix()
+		}
+		hs.Extra = map[string]interface{}{"active": false, "client_id": "evil-client", "sub": "evil-subject", "scope": "admin", "aud": []string{"https://evil.example"}, "exp": exp, "iat": 1, "username": "evil", "custom": "kept"}
+		hs.JWTClaims.Extra = map[string]interface{}{"exp": exp, "iat": 1, "nbf": 1, "sub": "evil-subject", "iss": "https://evil.example", "aud": []string{"https://evil.example"}, "scp": []string{"admin"}, "scope": "admin", "client_id": "evil-client", "jti": "fixed-jti", "custom": "kept"}
+		e.label("session-extra-claims-collide")
+	}
+	return sess
+}
+
 // ---------------------------------------------------------------- authorize
 
 func (e *Eng) actAuthorize() {
@@ -81,12 +98,7 @@ func (e *Eng) actAuthorize() {
 		q.Set("audience", strings.Join(aud, " "))
 	}
 	subject := fmt.Sprintf("user-%d", len(e.grants)+1)
-	var sess fosite.Session = e.w.Sess(subject)
-	if hs, ok := sess.(*h.Sess); ok && rapid.IntRange(0, 3).Draw(t, "collidingExtraClaims") == 0 {
-		// custom session claims named like the fields the server reports itself must not override them
-		hs.Extra = map[string]interface{}{"active": false, "client_id": "evil-client", "sub": "evil-subject", "scope": "admin", "aud": []string{"https://evil.example"}, "exp": 1, "iat": 1, "username": "evil", "custom": "kept"}
-		e.label("session-extra-claims-collide")
-	}
+	sess := e.sessFor(subject)
 	res := e.w.Authorize(q, h.Consent{Session: sess, Scopes: append([]string{}, granted...), Audience: append([]string{}, grantedAud...)})
 	e.step("authorize:" + rtype)
 	if e.w.Cfg.IsPushedAuthorizeEnforced {
@@ -429,6 +441,15 @@ func (e *Eng) actRefresh() {
 		return false
 	}
 	issued := tr.Access != "" || tr.Refresh != ""
+	if tr.OK() {
+		// whatever the reference expected of this request: once a refresh went through, a contract store has revoked
+		// the access tokens of the request id, the hybrid flow's authorization-endpoint token among them
+		for _, o := range g.Creds {
+			if o.Kind == "access" && o.Origin == "authz" {
+				e.setUnspec(o, "hybrid-sibling-of-refreshed-grant")
+			}
+		}
+	}
 	if has("unspecified") {
 		if tr.OK() {
 			if r.Consumed {
@@ -664,7 +685,7 @@ func (e *Eng) actPassword() {
 	if len(scopes) > 0 {
 		form.Set("scope", strings.Join(scopes, " "))
 	}
-	tr := e.w.Token(form, e.auth(client), h.TokenOpts{Session: e.w.Sess("")})
+	tr := e.w.Token(form, e.auth(client), h.TokenOpts{Session: e.sessFor("")})
 	e.step("password")
 	if !tr.OK() {
 		e.logf("password client=%s -> %v (not asserted)", client, tr.Err)
